@@ -152,10 +152,15 @@ def judge(params, k, arb, o, inject_label=None):
         if not (len(active) <= ref <= len(active) + len(stuck)):
             bad.append(("converge:wrong-active-count" + at, "%d live workers that were not told to stop (+%d still stopping), target %d" % (
                 len(active), len(stuck), ref)))
-    # surplus workers are retired oldest first
+    r = retire_order_violation(k)
+    if r:
+        bad.append(("retire:not-oldest-first" + at, r))
+    return bad
+
+
+def retire_order_violation(k):
+    """Surplus workers are retired oldest first (oldest by the kernel's birth order, not by the arbiter's own counters)."""
     termed = set()
-    dead = set()
-    ti = 0
     for (now, pid, sig, snap, alive) in k.kills:
         if sig == signal.SIGTERM:
             ages = {p: a for a, p in snap}
@@ -164,11 +169,9 @@ def judge(params, k, arb, o, inject_label=None):
                 # a worker that is already dead (zombie, or gone) does not count as 'older and kept'
                 older = [p for p in older if p in k.procs and (k.procs[p].alive or getattr(k.procs[p], "died_at", 0) > now)]
                 if older:
-                    bad.append(("retire:not-oldest-first" + at, "TERM sent to pid %d (age %d) while older workers %r had not been told to stop" % (
-                        pid, ages[pid], older)))
-                    break
+                    return "TERM sent to pid %d (birth rank %d) while older workers %r had not been told to stop" % (pid, ages[pid], older)
             termed.add(pid)
-    return bad
+    return None
 
 
 def execute(params, script, inject=None, settle=None):
